@@ -17,9 +17,10 @@
 //! The daemon's counter mapping (`ServerStats`) is checked in /verif/harness/ntpd/c21.rs.
 use std::collections::BTreeMap;
 use std::net::IpAddr;
-use std::time::Duration;
+use std::sync::atomic::{AtomicBool, Ordering};
+use std::time::{Duration, Instant};
 
-use super::c15::{self, Ans, Dgram, Keys, Kind, Outcome, Policy};
+use super::c15::{self, Act, Ans, Dgram, Keys, Kind, Outcome, Policy};
 use super::common::{self, Ctx};
 use crate::server::{ServerReason, ServerResponse};
 
@@ -172,6 +173,111 @@ fn judge(
     }
 }
 
+// ---------------------------------------------------------------------------------
+// schedule part: the system task holds the write lock on the shared server info while a
+// request is handled (same schedule as C18 part (f) of group gg, on this group's toolkit)
+// ---------------------------------------------------------------------------------
+
+const SCHED_DGRAMS: [&str; 5] = ["v3.plain.m3", "v4.plain.m3", "v5.plain.m3", "v4.nts.ok.m3", "v4.nts.badtag.m3"];
+const SCHED_ADDR: &str = "10.1.2.3";
+
+fn sched_policy(denied: bool) -> Policy {
+    let all = c15::lists(false)[1].1.clone();
+    Policy {
+        deny_name: if denied { "all" } else { "empty" },
+        deny: if denied { all.clone() } else { vec![] },
+        deny_act: Act::Deny,
+        allow_name: "all",
+        allow: all,
+        allow_act: Act::Ignore,
+        require_nts: None,
+        versions: 7,
+        cache_size: 0,
+        cutoff: Duration::ZERO,
+    }
+}
+
+/// One schedule: the harness takes the write lock BEFORE the handler thread starts, waits
+/// until the handler returned or has been seen blocked for 50 ms, optionally stores a new
+/// snapshot, releases the lock on every path, then joins (dead man: 30 s -> cap, no verdict).
+/// The verdict (exactly one entry, kind == what was returned, NTS flag) does not depend on
+/// which of the two the handler did.
+fn run_schedule(ctx: &Ctx, keys: &Keys, d: &Dgram, denied: bool, store: bool) -> String {
+    let p = sched_policy(denied);
+    let info = c15::server_info();
+    let mut server = p.server_shared(keys, info.clone());
+    let addr: IpAddr = SCHED_ADDR.parse().unwrap();
+    let trace = || format!("sched;pol={};dg={};store={}", if denied { "denied" } else { "allowed" }, d.name, store as u8);
+    let done = AtomicBool::new(false);
+    let mut blocked = false;
+    let mut dead_man = false;
+    let mut handled: Option<std::thread::Result<Outcome>> = None;
+    std::thread::scope(|s| {
+        let mut guard = info.write().expect("fresh lock");
+        let h = s.spawn(|| {
+            let mut buf = vec![0u8; 4096];
+            let r = c15::run_handle(&mut server, addr, &d.bytes, &mut buf);
+            done.store(true, Ordering::SeqCst);
+            r
+        });
+        let t0 = Instant::now();
+        while !done.load(Ordering::SeqCst) && t0.elapsed() < Duration::from_millis(50) {
+            std::thread::sleep(Duration::from_micros(200));
+        }
+        blocked = !done.load(Ordering::SeqCst);
+        if store {
+            guard.ntp_snapshot.stratum = 3;
+        }
+        drop(guard); // released on every path before joining
+        let t1 = Instant::now();
+        while !done.load(Ordering::SeqCst) {
+            if t1.elapsed() > Duration::from_secs(30) {
+                dead_man = true;
+                break;
+            }
+            std::thread::sleep(Duration::from_micros(200));
+        }
+        handled = Some(h.join());
+    });
+    ctx.inc("sched.cases");
+    ctx.inc("evaluations");
+    ctx.inc("transitions");
+    ctx.inc(if blocked { "sched.handler_waited_for_the_writer" } else { "sched.handler_returned_while_write_locked" });
+    if dead_man {
+        ctx.cap_hit(&format!("schedule dead man expired for {}", trace()));
+    }
+    match handled {
+        Some(Ok(out)) => {
+            let mut tally = BTreeMap::new();
+            judge(ctx, &trace, d, &out, &mut tally);
+            for (k, v) in tally {
+                ctx.add(&format!("sched.{k}"), v);
+            }
+            ctx.distinct(common::hash_of(&("sched", &d.name, denied, store)));
+            let seen = c15::classify(out.resp.as_deref(), d.version);
+            format!("did={} len={} regs={:?} panic={:?}", seen.ans.tag(), seen.len, out.regs, out.panic)
+        }
+        _ => {
+            ctx.cap_hit(&format!("schedule handler thread lost for {}", trace()));
+            "handler thread lost".into()
+        }
+    }
+}
+
+fn part_schedule(ctx: &Ctx, keys: &Keys, alpha: &[Dgram]) {
+    for name in SCHED_DGRAMS {
+        let d = alpha.iter().find(|d| d.name == name).expect("datagram");
+        for denied in [false, true] {
+            for store in [false, true] {
+                let obs = run_schedule(ctx, keys, d, denied, store);
+                if !denied && !store {
+                    ctx.sample(format!("sched;pol=allowed;dg={};store=0 -> {obs}", d.name));
+                }
+            }
+        }
+    }
+}
+
 fn buffer_for(size: usize) -> Vec<u8> {
     vec![0u8; size]
 }
@@ -179,6 +285,15 @@ fn buffer_for(size: usize) -> Vec<u8> {
 fn replay(ctx: &Ctx, trace: &str) -> String {
     let keys = Keys::new();
     let f = c15::parse_fields(trace);
+    if trace.starts_with("sched") {
+        let alpha = c15::alphabet(&keys);
+        let Some(d) = alpha.iter().find(|d| Some(&d.name) == f.get("dg")) else {
+            return "unknown datagram".into();
+        };
+        let denied = f.get("pol").map(|s| s.as_str()) == Some("denied");
+        let store = f.get("store").map(|s| s.as_str()) == Some("1");
+        return run_schedule(ctx, &keys, d, denied, store);
+    }
     let Some(p) = Policy::parse(&f) else {
         return format!("unparsable trace {trace:?}");
     };
@@ -252,10 +367,13 @@ fn check() {
          accepted versions x byte-built request datagram: plain/NTS-valid/NTS-undecryptable in every mode, other drafts, malformed) x \
          response buffer size {0, 47, request length, 4096}; plus, with the rate limiter on (cache 4 slots, cutoff 1 h), every \
          (list configuration, address, datagram) handled twice in a row with a 4096-byte buffer. quick = base address/list sets, \
-         thorough = extended sets. Distinct & non-trivial = a (policy, address, datagram, buffer) case in which an answer was \
+         thorough = extended sets. Schedule part (both tiers): 5 requests (plain v3/v4/v5, NTS valid, NTS undecryptable) x \
+         {allowed client, deny-listed client with action deny} x {server-info write lock held while the request is handled and released \
+         unchanged, held and a new snapshot stored}: exactly one entry, kind and NTS flag as above. Distinct & non-trivial = a (policy, address, datagram, buffer) case in which an answer was \
          attempted (the recorded kind is not a policy/parse 'Ignore'), i.e. serialisation and the NTS flag rules are exercised.",
     );
     ctx.assume("what was 'actually done' is read from the returned ServerAction and the answer bytes (harness walker: stratum, kiss code / v5 flags), not from the decoder under test");
+    ctx.assume("schedule part: the harness takes the write lock before the handler thread starts and keeps it until the handler returned or was seen blocked for 50 ms; the verdict is the same for both outcomes, a handler that never returns gives a cap, not a verdict");
     ctx.assume("an 'NTS request' is a datagram that carries NTS fields (cookie and/or authenticator), whether or not it authenticates; a 'plain request' carries none");
     ctx.assume(
         "the version argument of register is not constrained by the statement and is not judged",
@@ -350,6 +468,8 @@ fn check() {
             ctx.add(&format!("rl.{k}"), v);
         }
     });
+    // ---- schedule part: handled while the system task holds the write lock ----
+    part_schedule(&ctx, &keys, &alpha);
     ctx.exhaustive(true);
     ctx.finish();
 }
